@@ -61,6 +61,8 @@ func (vc *VC) lenOf(st *State, v Val, t types.Type) *Term {
 	switch x := v.(type) {
 	case *SliceV:
 		return x.Len
+	case *SeqV:
+		return x.Len
 	case *ArrV:
 		return IntC(x.N)
 	case *Term:
